@@ -1,13 +1,376 @@
 /-
-C01 — State trie behaves as a map from paths to values.  (Theorems are added as they are proved; see DESIGN.md §6.)
+C01 — The state trie behaves as a map from paths to values.
+
+All statements are about the executable model `Verif.Model.Mpt` (tied to the Go code by the differential
+harness).  `WF t` is the canonical form of `Verif.Lemmas.MptWF`; `<` on paths is core's lexicographic order on
+`List (Fin 16)` (a proper prefix is smaller).  Helper lemmas live in `Verif/Lemmas/Mpt*.lean`.
 -/
-import Verif.Model.Mpt
+import Verif.Lemmas.MptInsert
+import Verif.Lemmas.MptDelete
+import Verif.Lemmas.MptIterate
 namespace Verif.Props.C01
 open Verif.Mpt
 
-/-- `upd` reads back what was put -/
-theorem upd_same (ch : Nib → Node) (i : Nib) (t : Node) : upd ch i t i = t := by simp [upd]
+/-! ### 1. `splitCommon` (Go `matchingPrefix`) -/
 
-theorem upd_other (ch : Nib → Node) (i j : Nib) (t : Node) (h : j ≠ i) : upd ch i t j = ch j := by simp [upd, h]
+/-- `splitCommon` returns a common prefix and the two remainders, and the remainders differ at their heads
+    (so the common prefix is the longest one) -/
+theorem splitCommon_char {p q c p' q' : List Nib} (h : splitCommon p q = (c, p', q')) :
+    p = c ++ p' ∧ q = c ++ q' ∧ (∀ x y pr qr, p' = x :: pr → q' = y :: qr → x ≠ y) :=
+  splitCommon_eq h
+
+/-! ### 2./3. `insert` -/
+
+theorem lookup_insert {t : Node} {b : Bytes} {v : Nat} {p q : List Nib} (hwf : WF t) (hb : b ≠ []) :
+    lookup (insert v b t p) q = if q = p then some b else lookup t q :=
+  Verif.Mpt.lookup_insert v b hb t p q hwf
+
+theorem wf_insert {t : Node} {b : Bytes} {v : Nat} {p : List Nib} (hwf : WF t) (hb : b ≠ []) :
+    WFn (insert v b t p) :=
+  Verif.Mpt.wf_insert v b hb t p hwf
+
+/-! ### 4. `delete` -/
+
+theorem delete_notPresent_iff {t : Node} {v : Nat} {p : List Nib} (hwf : WF t) :
+    delete v t p = .notPresent ↔ lookup t p = none := by
+  have h := delete_spec v t p hwf
+  constructor
+  · intro e; rw [e] at h; exact h
+  · intro e
+    cases hd : delete v t p with
+    | notPresent => rfl
+    | panic => rw [hd] at h; exact h.elim
+    | removed => rw [hd] at h; exact (h.1 e).elim
+    | node n => rw [hd] at h; exact (h.1 e).elim
+
+theorem delete_no_panic {t : Node} {v : Nat} {p : List Nib} (hwf : WF t) : delete v t p ≠ .panic := by
+  intro e
+  have h := delete_spec v t p hwf
+  rw [e] at h
+  exact h
+
+theorem lookup_delete_node {t t' : Node} {v : Nat} {p : List Nib} (hwf : WF t) (hd : delete v t p = .node t') :
+    ∀ q, lookup t' q = if q = p then none else lookup t q := by
+  have h := delete_spec v t p hwf
+  rw [hd] at h
+  exact h.2.2.2
+
+theorem lookup_delete_removed {t : Node} {v : Nat} {p : List Nib} (hwf : WF t) (hd : delete v t p = .removed) :
+    ∀ q, q ≠ p → lookup t q = none := by
+  have h := delete_spec v t p hwf
+  rw [hd] at h
+  exact h.2.2
+
+theorem wf_delete {t t' : Node} {v : Nat} {p : List Nib} (hwf : WF t) (hd : delete v t p = .node t') : WFn t' := by
+  have h := delete_spec v t p hwf
+  rw [hd] at h
+  exact h.2.1
+
+/-! ### 5. `iterate` -/
+
+theorem iterate_mem_pre {t : Node} {pre q : List Nib} {b : Bytes} (hwf : WF t) :
+    (q, b) ∈ iterate t pre ↔ ∃ r, q = pre ++ r ∧ lookup t r = some b :=
+  Verif.Mpt.iterate_mem_pre t pre q b hwf
+
+theorem iterate_mem {t : Node} {q : List Nib} {b : Bytes} (hwf : WF t) :
+    (q, b) ∈ iterate t [] ↔ lookup t q = some b := by
+  rw [Verif.Mpt.iterate_mem_pre t [] q b hwf]
+  constructor
+  · rintro ⟨r, rfl, h⟩; simpa using h
+  · intro h; exact ⟨q, by simp, h⟩
+
+theorem iterate_sorted_pre {t : Node} {pre : List Nib} (hwf : WF t) :
+    (iterate t pre).Pairwise (fun a c => a.1 < c.1) :=
+  Verif.Mpt.iterate_sorted_pre t pre hwf
+
+theorem iterate_sorted {t : Node} (hwf : WF t) : (iterate t []).Pairwise (fun a c => a.1 < c.1) :=
+  Verif.Mpt.iterate_sorted_pre t [] hwf
+
+/-! ### 6. Whole histories: the model refines a partial map -/
+
+inductive Op where
+  | ins (p : List Nib) (b : Bytes)
+  | del (p : List Nib)
+  | get (p : List Nib)
+  | iter
+  | ver (v : Nat)
+
+/-- model state: the trie and the trie version at which the next operation runs -/
+structure MState where
+  t : Node
+  v : Nat
+
+/-- what one step of the model shows to the caller -/
+inductive Obs where
+  | out (o : Outcome)
+  | val (r : Option Bytes)
+  | items (l : List (List Nib × Bytes))
+  deriving DecidableEq
+
+/-- one step of the model (`maxSize` is the value-size limit of `Insert`) -/
+def mstep (maxSize : Nat) (s : MState) : Op → MState × Obs
+  | .ins p b => let r := Trie.insert maxSize s.v s.t p b; (⟨r.1, s.v⟩, .out r.2)
+  | .del p => let r := Trie.delete s.v s.t p; (⟨r.1, s.v⟩, .out r.2)
+  | .get p => (s, .val (lookup s.t p))
+  | .iter => (s, .items (iterate s.t []))
+  | .ver v => (⟨s.t, v⟩, .out .ok)
+
+/-- run a history on the model: final state and the observations in order -/
+def mrun (maxSize : Nat) (s : MState) : List Op → MState × List Obs
+  | [] => (s, [])
+  | op :: ops =>
+    let r := mstep maxSize s op
+    let r' := mrun maxSize r.1 ops
+    (r'.1, r.2 :: r'.2)
+
+/-- the specification state: a partial map from paths to non-empty values (the version is not part of it) -/
+abbrev Spec := List Nib → Option Bytes
+
+/-- what one step of the specification shows: outcome, looked-up value, or (for `iter`) the map whose live pairs
+    have to be listed in path order -/
+inductive SObs where
+  | out (o : Outcome)
+  | val (r : Option Bytes)
+  | items (m : Spec)
+
+def Spec.remove (m : Spec) (p : List Nib) : Spec := fun q => if q = p then none else m q
+
+def Spec.set (m : Spec) (p : List Nib) (b : Bytes) : Spec := fun q => if q = p then some b else m q
+
+def sdel (m : Spec) (p : List Nib) : Spec × SObs :=
+  if m p = none then (m, .out .notPresent) else (m.remove p, .out .ok)
+
+/-- one step of the specification -/
+def sstep (maxSize : Nat) (m : Spec) : Op → Spec × SObs
+  | .ins p b =>
+    if b = [] then sdel m p
+    else if b.length > maxSize then (m, .out .tooLarge)
+    else (m.set p b, .out .ok)
+  | .del p => sdel m p
+  | .get p => (m, .val (m p))
+  | .iter => (m, .items m)
+  | .ver _ => (m, .out .ok)
+
+def srun (maxSize : Nat) (m : Spec) : List Op → Spec × List SObs
+  | [] => (m, [])
+  | op :: ops =>
+    let r := sstep maxSize m op
+    let r' := srun maxSize r.1 ops
+    (r'.1, r.2 :: r'.2)
+
+/-- a model observation agrees with a specification observation: outcomes and looked-up values are equal; an
+    iteration result is strictly sorted by path and contains exactly the pairs of the map -/
+def ObsRel : Obs → SObs → Prop
+  | .out o, .out o' => o = o'
+  | .val r, .val r' => r = r'
+  | .items l, .items m => l.Pairwise (fun a c => a.1 < c.1) ∧ ∀ q b, (q, b) ∈ l ↔ m q = some b
+  | _, _ => False
+
+/-- element-wise agreement of two observation lists (same length) -/
+def ObsListRel : List Obs → List SObs → Prop
+  | [], [] => True
+  | o :: os, s :: ss => ObsRel o s ∧ ObsListRel os ss
+  | _, _ => False
+
+/-- the refinement invariant: the trie is canonical and reads as the map -/
+def Inv (s : MState) (m : Spec) : Prop := WF s.t ∧ ∀ q, lookup s.t q = m q
+
+theorem Trie.delete_step {t : Node} {m : Spec} (v : Nat) (p : List Nib) (hwf : WF t) (hm : ∀ q, lookup t q = m q) :
+    WF (Trie.delete v t p).1 ∧ (∀ q, lookup (Trie.delete v t p).1 q = (sdel m p).1 q) ∧
+      ObsRel (.out (Trie.delete v t p).2) (sdel m p).2 ∧ (Trie.delete v t p).2 ≠ .panic := by
+  have h := delete_spec v t p hwf
+  unfold Trie.delete sdel
+  cases hd : delete v t p with
+  | notPresent =>
+    rw [hd] at h
+    have : m p = none := by rw [← hm]; exact h
+    simp only [this, if_true]
+    exact ⟨hwf, hm, rfl, by simp⟩
+  | panic => rw [hd] at h; exact h.elim
+  | removed =>
+    rw [hd] at h
+    have : m p ≠ none := by rw [← hm]; exact h.1
+    simp only [this, if_false]
+    refine ⟨Or.inl rfl, ?_, rfl, by simp⟩
+    intro q
+    by_cases hq : q = p
+    · simp [Spec.remove, hq]
+    · simp [Spec.remove, hq, ← hm, h.2.2 q hq]
+  | node n =>
+    rw [hd] at h
+    have : m p ≠ none := by rw [← hm]; exact h.1
+    simp only [this, if_false]
+    refine ⟨Or.inr h.2.1, ?_, rfl, by simp⟩
+    intro q
+    rw [h.2.2.2 q]
+    by_cases hq : q = p <;> simp [Spec.remove, hq, hm]
+
+/-- one step preserves the invariant, produces agreeing observations, and does not panic -/
+theorem step_refines (maxSize : Nat) {s : MState} {m : Spec} (hinv : Inv s m) (op : Op) :
+    Inv (mstep maxSize s op).1 (sstep maxSize m op).1 ∧ ObsRel (mstep maxSize s op).2 (sstep maxSize m op).2 ∧
+      (mstep maxSize s op).2 ≠ .out .panic := by
+  obtain ⟨hwf, hm⟩ := hinv
+  cases op with
+  | ins p b =>
+    simp only [mstep, sstep, Trie.insert]
+    by_cases hb : b = []
+    · simp only [hb, if_true]
+      obtain ⟨h1, h2, h3, h4⟩ := Trie.delete_step s.v p hwf hm
+      exact ⟨⟨h1, h2⟩, h3, by simpa using h4⟩
+    · simp only [hb, if_false]
+      by_cases hl : b.length > maxSize
+      · simp only [hl, if_true]
+        exact ⟨⟨hwf, hm⟩, rfl, by simp⟩
+      · simp only [hl, if_false]
+        refine ⟨⟨Or.inr (wf_insert hwf hb), ?_⟩, rfl, by simp⟩
+        intro q
+        simp only [lookup_insert hwf hb, Spec.set, hm]
+  | del p =>
+    simp only [mstep, sstep]
+    obtain ⟨h1, h2, h3, h4⟩ := Trie.delete_step s.v p hwf hm
+    exact ⟨⟨h1, h2⟩, h3, by simpa using h4⟩
+  | get p => exact ⟨⟨hwf, hm⟩, hm p, by simp [mstep]⟩
+  | iter =>
+    refine ⟨⟨hwf, hm⟩, ⟨iterate_sorted hwf, ?_⟩, by simp [mstep]⟩
+    intro q b
+    rw [iterate_mem hwf, hm]
+  | ver v => exact ⟨⟨hwf, hm⟩, rfl, by simp [mstep]⟩
+
+/-- refinement from any pair of related states (the induction behind the three history theorems) -/
+theorem run_refines (maxSize : Nat) (ops : List Op) : ∀ {s : MState} {m : Spec}, Inv s m →
+    Inv (mrun maxSize s ops).1 (srun maxSize m ops).1 ∧ ObsListRel (mrun maxSize s ops).2 (srun maxSize m ops).2 ∧
+      ∀ o ∈ (mrun maxSize s ops).2, o ≠ .out .panic := by
+  induction ops with
+  | nil => intro s m h; exact ⟨h, trivial, fun o ho => by cases ho⟩
+  | cons op ops ih =>
+    intro s m h
+    obtain ⟨h1, h2, h3⟩ := step_refines maxSize h op
+    obtain ⟨h4, h5, h6⟩ := ih h1
+    refine ⟨h4, ⟨h2, h5⟩, ?_⟩
+    intro o ho
+    rcases List.mem_cons.mp ho with rfl | hmem
+    · exact h3
+    · exact h6 o hmem
+
+/-- the empty trie at any version, and the empty map -/
+def init (v0 : Nat) : MState := ⟨.empty, v0⟩
+def emptySpec : Spec := fun _ => none
+
+theorem inv_init (v0 : Nat) : Inv (init v0) emptySpec := ⟨Or.inl rfl, fun q => by simp [init, emptySpec]⟩
+
+/-- **Refinement**: for every history (inserts, deletes, reads, iterations, version changes in any order) started
+    on the empty trie, the observations of the model agree one by one with those of the partial-map
+    specification, and the final trie reads as the final map. -/
+theorem C01_refinement (maxSize v0 : Nat) (ops : List Op) :
+    ObsListRel (mrun maxSize (init v0) ops).2 (srun maxSize emptySpec ops).2 ∧
+      ∀ q, lookup (mrun maxSize (init v0) ops).1.t q = (srun maxSize emptySpec ops).1 q := by
+  obtain ⟨h1, h2, _⟩ := run_refines maxSize ops (inv_init v0)
+  exact ⟨h2, h1.2⟩
+
+/-- the trie is canonical after every history -/
+theorem C01_wf_invariant (maxSize v0 : Nat) (ops : List Op) : WF (mrun maxSize (init v0) ops).1.t :=
+  (run_refines maxSize ops (inv_init v0)).1.1
+
+/-- no step of any history panics -/
+theorem C01_no_panic (maxSize v0 : Nat) (ops : List Op) :
+    ∀ o ∈ (mrun maxSize (init v0) ops).2, o ≠ .out .panic :=
+  (run_refines maxSize ops (inv_init v0)).2.2
+
+/-- the specification determines the model's observation: two model observations that agree with the same
+    specification observation are equal (in particular the `iter` clause — strictly sorted, same members as the
+    map — pins down the iteration result) -/
+theorem obsRel_unique {o o' : Obs} {s : SObs} (h : ObsRel o s) (h' : ObsRel o' s) : o = o' := by
+  cases s with
+  | out x => cases o <;> cases o' <;> simp_all [ObsRel]
+  | val x => cases o <;> cases o' <;> simp_all [ObsRel]
+  | items m =>
+    cases o <;> cases o' <;> simp only [ObsRel] at h h' <;> try contradiction
+    rename_i l l'
+    obtain ⟨hs, hm⟩ := h
+    obtain ⟨hs', hm'⟩ := h'
+    have hne : ∀ {l : List (List Nib × Bytes)}, l.Pairwise (fun a c => a.1 < c.1) → l.Nodup := by
+      intro l hl
+      refine List.Pairwise.imp ?_ hl
+      intro a c hac e
+      subst e
+      exact List.lt_irrefl _ hac
+    have hperm : l.Perm l' := by
+      rw [List.perm_ext_iff_of_nodup (hne hs) (hne hs')]
+      intro ⟨q, b⟩
+      rw [hm, hm']
+    congr 1
+    refine List.Perm.eq_of_pairwise ?_ hs hs' hperm
+    intro a c _ _ hac hca
+    exact (List.lt_irrefl _ (List.lt_trans hac hca)).elim
+
+/-! ### non-vacuity: a concrete history -/
+
+/-- empty path, a prefix pair (`[1,2]` and `[1,2,3]`), a version change, a delete of the root value that leaves
+    the root branch with a single child (so the child is lifted), an iteration, and a failing delete -/
+def demoOps : List Op :=
+  [.ins [] [1], .ins [1, 2] [2], .ver 2, .ins [1, 2, 3] [3], .del [], .iter, .del [5]]
+
+example : (mrun 10 (init 7) demoOps).2 =
+    [.out .ok, .out .ok, .out .ok, .out .ok, .out .ok,
+      .items [([1, 2], [2]), ([1, 2, 3], [3])], .out .notPresent] := by decide
+
+/-- root of a trie, as far as it can be printed -/
+def rootShape : Node → String × List Nib
+  | .empty => ("empty", [])
+  | .leaf _ p _ => ("leaf", p)
+  | .full .. => ("full", [])
+  | .ext _ p _ => ("ext", p)
+
+/-- before the delete the root is a branch; the delete lifts its only child: the root becomes the extension
+    `[1,2]` (child `1` was the extension `[2]`) -/
+example : rootShape (mrun 10 (init 7) (demoOps.take 4)).1.t = ("full", []) := by decide
+example : rootShape (mrun 10 (init 7) demoOps).1.t = ("ext", [1, 2]) := by decide
+
+/-- a canonical, non-trivial trie for the hypotheses `WF t` above: branch with own value, below it an extension
+    and a second branch -/
+def demoTrie : Node := (mrun 10 (init 7) (demoOps.take 4)).1.t
+
+example : WF demoTrie := C01_wf_invariant 10 7 (demoOps.take 4)
+example : lookup (insert 3 [9] demoTrie [1]) [1, 2] = some [2] := by
+  have h : WF demoTrie := C01_wf_invariant 10 7 (demoOps.take 4)
+  rw [lookup_insert h (by decide)]; decide
+example : ∃ t', delete 3 demoTrie [] = .node t' ∧ rootShape t' = ("ext", [1, 2]) := ⟨_, rfl, by decide⟩
+example : delete 3 demoTrie [1] = .notPresent ∧ lookup demoTrie [1] = none := ⟨rfl, by decide⟩
+example : delete 3 (.leaf 0 [4] [1]) [4] = .removed ∧ WF (.leaf 0 [4] [1]) := ⟨rfl, Or.inr (by simp [WFn])⟩
+example : iterate demoTrie [] = [([], [1]), ([1, 2], [2]), ([1, 2, 3], [3])] := by decide
+/-- the over-size and empty-value forms of `ins` -/
+example : (mrun 2 (init 0) [.ins [1] [1, 2, 3], .ins [1] [7], .ins [1] [], .ins [1] [], .get [1]]).2 =
+    [.out .tooLarge, .out .ok, .out .ok, .out .notPresent, .val none] := by decide
+
+/-! ### failing operations leave the trie unchanged -/
+
+/-- whatever the trie, an operation that does not report `ok` returns the trie it was given -/
+theorem Trie.delete_fail_unchanged (v : Nat) (t : Node) (p : List Nib) (h : (Trie.delete v t p).2 ≠ .ok) :
+    (Trie.delete v t p).1 = t := by
+  unfold Trie.delete at h ⊢
+  cases hd : delete v t p <;> simp [hd] at h ⊢
+
+theorem Trie.insert_fail_unchanged (maxSize v : Nat) (t : Node) (p : List Nib) (b : Bytes)
+    (h : (Trie.insert maxSize v t p b).2 ≠ .ok) : (Trie.insert maxSize v t p b).1 = t := by
+  unfold Trie.insert at h ⊢
+  by_cases hb : b = []
+  · simp only [hb, if_true] at h ⊢
+    exact Trie.delete_fail_unchanged v t p h
+  · by_cases hl : b.length > maxSize
+    · simp [hb, hl]
+    · simp [hb, hl] at h
+
+/-- deleting an absent path: `notPresent`, same trie -/
+theorem Trie.delete_absent {t : Node} (v : Nat) {p : List Nib} (hwf : WF t) (h : lookup t p = none) :
+    Trie.delete v t p = (t, .notPresent) := by
+  unfold Trie.delete
+  rw [(delete_notPresent_iff hwf).mpr h]
+
+/-- inserting an over-size value: `tooLarge`, same trie -/
+theorem Trie.insert_tooLarge (maxSize v : Nat) (t : Node) (p : List Nib) {b : Bytes} (h : b.length > maxSize) :
+    Trie.insert maxSize v t p b = (t, .tooLarge) := by
+  unfold Trie.insert
+  have hb : b ≠ [] := by intro e; subst e; simp at h
+  simp [hb, h]
 
 end Verif.Props.C01
